@@ -1180,7 +1180,7 @@ func (vfs *MemFS) Stat(path string) (fs.FileInfo, error) {
 func (vfs *MemFS) Sub(dir string) (avfs.VFS, error) {
 	const op = "sub"
 
-	_, child, _, err := vfs.searchNode(dir, slmEval)
+	_, child, pi, err := vfs.searchNode(dir, slmEval)
 	if err != vfs.err.FileExists || child == nil {
 		return nil, &fs.PathError{Op: op, Path: dir, Err: err}
 	}
@@ -1192,6 +1192,12 @@ func (vfs *MemFS) Sub(dir string) (avfs.VFS, error) {
 
 	subFS := *vfs
 	subFS.rootNode = c
+
+	if pi.VolumeNameLen() > 0 {
+		// paths with a volume name are resolved through the volume table : the view gets its own,
+		// whose only volume is rooted at dir (the table of vfs is left alone).
+		subFS.volumes = map[string]*dirNode{pi.VolumeName(): c}
+	}
 
 	return &subFS, nil
 }
